@@ -338,19 +338,17 @@ Definition w_aXb1 : name := [97;88;98;49].         (* aXb1 *)
 Definition w_pat : name := [97;46;98;42].          (* a.b* *)
 
 (* the index expression a.b* of org 1 names (glob) only a.b1 but the code also reads index aXb1 *)
-Theorem expand_regex_metachar_refuted :
-  exists ops X expr t i,
-    In t (expand (run ops) X false expr) /\
+Theorem prefix_expand_regex_metachar_refuted :
+  exists ops X expr t,
+    In t (expand_prefix (run ops) X false expr) /\
     ~ In t (expand_glob (run ops) X false expr) /\
     glob_match expr t = false /\
-    In i (map e_id (q_events (run ops) X expr)) /\
-    (exists e, In e (evs (run ops)) /\ e_id e = i /\ e_tab e = t).
+    (exists e, In e (evs (run ops)) /\ e_org e = X /\ e_tab e = t).
 Proof.
-  exists [Ingest 1 w_adotb1 [1]; Ingest 1 w_aXb1 [2]], 1, w_pat, w_aXb1, 2.
+  exists [Ingest 1 w_adotb1 [1]; Ingest 1 w_aXb1 [2]], 1, w_pat, w_aXb1.
   split; [vm_compute; tauto|].
   split; [intros H; apply mem_In in H; vm_compute in H; discriminate|].
   split; [vm_compute; reflexivity|].
-  split; [vm_compute; tauto|].
   exists (mkEv 1 w_aXb1 false 2). vm_compute. tauto.
 Qed.
 
@@ -472,26 +470,60 @@ Proof.
   - apply orb_true_iff in Gt. destruct Gt as [Gt|Gt]; [left; apply negb_true_iff; exact Gt | right; exact Gt].
 Qed.
 
-Theorem expand_is_glob_guarded : forall s X es expr,
+Theorem prefix_expand_is_glob_guarded : forall s X es expr,
   expr_glob_safe expr = true -> names_ok s X = true ->
-  expand s X es expr = expand_glob s X es expr.
+  expand_prefix s X es expr = expand_glob s X es expr.
 Proof.
-  intros s X es expr G Hn. unfold expand, expand_glob, expand_with.
+  intros s X es expr G Hn. unfold expand_prefix, expand_glob, expand_with.
   destruct (name_eqb (strip_colon expr) [c_star]); auto.
   rewrite expand_terms_glob; auto.
 Qed.
 
-(* names_ok holds in every reachable state whose ops carry newline-free names: stated as a
-   premise of the run-level corollary to keep the guard explicit *)
-Corollary query_names_glob_guarded : forall ops X expr i,
-  expr_glob_safe expr = true -> names_ok (run ops) X = true ->
+(* ---------- FIXED code: the expansion IS glob matching, for every pattern and every name ---------- *)
+Lemma fixed_is_glob p : forall s, rmatch (fixed_items p) s = glob_match p s.
+Proof.
+  induction p as [|c p IH]; intros s.
+  - reflexivity.
+  - cbn [fixed_items map]. fold (fixed_items p). destruct (c =? c_star) eqn:Es.
+    + cbn [rmatch glob_match]. rewrite Es.
+      induction s as [|d s IHs].
+      * rewrite IH. reflexivity.
+      * rewrite IH. f_equal. cbn [amatch andb]. exact IHs.
+    + cbn [rmatch glob_match]. rewrite Es. destruct s as [|d s]; auto.
+      rewrite IH. cbn [amatch]. rewrite (N.eqb_sym d c). reflexivity.
+Qed.
+
+Lemma expand_term_fixed s X t : expand_term fixed_matcher s X t = expand_term glob_matcher s X t.
+Proof.
+  unfold expand_term, fixed_matcher, glob_matcher. destruct (has_star t); auto. destruct (excluded t); auto.
+  f_equal. f_equal.
+  - apply flat_map_ext. intros a. rewrite fixed_is_glob. reflexivity.
+  - apply filter_ext. intros a. apply fixed_is_glob.
+Qed.
+
+Theorem expand_is_glob : forall s X es expr, expand s X es expr = expand_glob s X es expr.
+Proof.
+  intros s X es expr. unfold expand, expand_glob, expand_with.
+  destruct (name_eqb (strip_colon expr) [c_star]); auto.
+  assert (E : forall terms, expand_terms fixed_matcher s X terms = expand_terms glob_matcher s X terms).
+  { induction terms as [|t r IH]; cbn; auto. rewrite expand_term_fixed, IH. reflexivity. }
+  rewrite E. reflexivity.
+Qed.
+
+Corollary query_names_glob : forall ops X expr i,
   In i (map e_id (q_events (run ops) X expr)) ->
   exists e, In e (evs (run ops)) /\ e_id e = i /\ e_org e = X /\
             In (e_tab e) (expand_glob (run ops) X false expr) /\ ingested ops X i.
 Proof.
-  intros ops X expr i G Hn H. destruct (query_isolation ops X expr i H) as (e & H1 & H2 & H3 & H4 & H5).
-  exists e. repeat split; auto. rewrite <- expand_is_glob_guarded; auto.
+  intros ops X expr i H. destruct (query_isolation ops X expr i H) as (e & H1 & H2 & H3 & H4 & H5).
+  exists e. repeat split; auto. rewrite <- expand_is_glob. exact H4.
 Qed.
+
+(* regression witness for the repaired defect: a.b* no longer names aXb1 *)
+Example fixed_pattern_does_not_name_aXb1 :
+  let ops := [Ingest 1 w_adotb1 [1]; Ingest 1 w_aXb1 [2]] in
+  expand (run ops) 1 false w_pat = [w_adotb1] /\ map e_id (q_events (run ops) 1 w_pat) = [1].
+Proof. vm_compute. auto. Qed.
 
 (* non-vacuity of the guards *)
 Example expr_glob_safe_sat : expr_glob_safe [97;42;44;97;46;98;49] = true.   (* "a*,a.b1" *)
@@ -733,8 +765,8 @@ Lemma do_delete_cong X s1 s2 e : sim X s1 s2 ->
   sim X (fst (do_delete s1 X e)) (fst (do_delete s2 X e)) /\ snd (do_delete s1 X e) = snd (do_delete s2 X e).
 Proof.
   intros H. unfold do_delete. destruct (name_eqb e n_traces); [split; auto|].
-  unfold expand. rewrite (expand_sim rx_matcher X s1 s2 true e H).
-  destruct (del_fold_cong X (expand_with rx_matcher s2 X true e) s1 s2 O H) as [H1 H2].
+  unfold expand. rewrite (expand_sim fixed_matcher X s1 s2 true e H).
+  destruct (del_fold_cong X (expand_with fixed_matcher s2 X true e) s1 s2 O H) as [H1 H2].
   destruct (fold_left (del_one X) _ (s1, O)) as [a1 c1]. destruct (fold_left (del_one X) _ (s2, O)) as [a2 c2].
   cbn [fst snd] in *. subst c2. split; auto.
 Qed.
@@ -793,8 +825,8 @@ Qed.
 (* queries of X read only X's part *)
 Lemma q_events_sim X s1 s2 e : sim X s1 s2 -> q_events s1 X e = q_events s2 X e.
 Proof.
-  intros H. unfold q_events, expand. rewrite (expand_sim rx_matcher X s1 s2 false e H).
-  set (names := expand_with rx_matcher s2 X false e).
+  intros H. unfold q_events, expand. rewrite (expand_sim fixed_matcher X s1 s2 false e H).
+  set (names := expand_with fixed_matcher s2 X false e).
   assert (E : forall l, filter (sel_tab names X) l = filter (sel_tab names X) (filter (orge X) l)).
   { intros l. rewrite filter_filter. apply filter_ext. intros x. unfold sel_tab, orge.
     destruct (e_org x =? X); reflexivity. }
@@ -804,8 +836,8 @@ Qed.
 Lemma q_pairs_sim X s1 s2 e : sim X s1 s2 -> q_pairs s1 X e = q_pairs s2 X e.
 Proof.
   intros H. unfold q_pairs. fold (q_events s1 X e). fold (q_events s2 X e).
-  rewrite (q_events_sim X s1 s2 e H). unfold expand. rewrite (expand_sim rx_matcher X s1 s2 false e H).
-  f_equal. set (names := expand_with rx_matcher s2 X false e).
+  rewrite (q_events_sim X s1 s2 e H). unfold expand. rewrite (expand_sim fixed_matcher X s1 s2 false e H).
+  f_equal. set (names := expand_with fixed_matcher s2 X false e).
   assert (E : forall l, filter (fun p : N * name => (fst p =? X) && mem (snd p) names) l =
                         filter (fun p => mem (snd p) names) (filter (orgp X) l)).
   { intros l. rewrite filter_filter. reflexivity. }
@@ -813,7 +845,7 @@ Proof.
 Qed.
 
 Lemma q_list_sim X s1 s2 : sim X s1 s2 -> q_list s1 X = q_list s2 X.
-Proof. intros H. unfold q_list, expand. rewrite (expand_sim rx_matcher X s1 s2 false _ H). reflexivity. Qed.
+Proof. intros H. unfold q_list, expand. rewrite (expand_sim fixed_matcher X s1 s2 false _ H). reflexivity. Qed.
 
 (* ---- ops ---- *)
 Definition op_org (o : op) : option N :=
